@@ -116,3 +116,45 @@ func VerifScanFile(path string, start uint32, bufsz int) (recs []VerifRec, broke
 		recs = append(recs, verifCopyRec(rec, offset))
 	}
 }
+
+// ---- store control (sequential engine) ----
+
+// VerifFlush forces a flush of every bucket's head data file (the periodic flusher's action).
+func (store *HStore) VerifFlush() { store.flushdatas(true) }
+
+// VerifSetSecsBeforeDump sets the hint-dump silence time (tests do the same).
+func VerifSetSecsBeforeDump(s int64) { SecsBeforeDump = s }
+
+// VerifSetThresholdListKey sets the list-keys threshold (tests do the same).
+func VerifSetThresholdListKey(n uint32) { thresholdListKey = n }
+
+// VerifGCCheckRange resolves a GC request like HStore.GC does, without starting a pass.
+func (store *HStore) VerifGCCheckRange(bucketID, begin, end, noGCDays int) (int, int, error) {
+	return store.buckets[bucketID].gcCheckRange(begin, end, noGCDays)
+}
+
+// VerifGCRun runs one GC pass synchronously (HStore.GC starts the same function in a goroutine).
+func (store *HStore) VerifGCRun(bucketID, begin, end int, merge bool) *GCState {
+	bkt := store.buckets[bucketID]
+	store.gcMgr.gc(bkt, begin, end, merge)
+	return &bkt.GCHistory[len(bkt.GCHistory)-1]
+}
+
+// VerifDumpHints runs the hint dumper's action for one bucket.
+func (store *HStore) VerifDumpHints(bucketID int) { store.buckets[bucketID].hints.dumpAndMerge(false) }
+
+// VerifMergeHints merges the bucket's hint files synchronously.
+func (store *HStore) VerifMergeHints(bucketID int) error {
+	return store.buckets[bucketID].hints.Merge(false)
+}
+
+// VerifBucketHome is the directory of a bucket ("" if not opened).
+func (store *HStore) VerifBucketHome(bucketID int) string { return store.buckets[bucketID].Home }
+
+// VerifHead is the id of the data file currently receiving appends.
+func (store *HStore) VerifHead(bucketID int) int {
+	if store.buckets[bucketID].datas == nil {
+		return -1
+	}
+	return store.buckets[bucketID].datas.newHead
+}
